@@ -46,9 +46,10 @@ INVS = "NoPanic CommitOK ReadYourWrites ScanYourWrites NodesSorted"
 
 
 SEEK_INVS = INVS + " SeekYourWrites"
+RANGE_INVS = SEEK_INVS + " RangeYourWrites"
 
 
-def mc(name, nkeys, seed, max_ops, max_tx, workers=None, timeout=3600, invs=None, **kw):
+def mc(name, nkeys, seed, max_ops, max_tx, workers=None, timeout=14400, invs=None, **kw):
     """exhaustive check of the model itself; returns dict(states, transitions, ok, violated)"""
     mod, cfg = instantiate("MC_BTree", "MCBT_" + name, _consts(nkeys, seed, max_ops, max_tx, False, **kw),
                            ["SPECIFICATION Spec", "VIEW View", "INVARIANTS " + (invs or INVS), "CHECK_DEADLOCK FALSE"])
@@ -66,7 +67,7 @@ def guard(name, nkeys, seed, max_ops, pinned, **kw):
     return dict(name=name, pinned=list(pinned), violated=r["violated"], states=r["states"])
 
 
-def gen(name, nkeys, seed, max_ops, max_tx, workers=4, simulate=None, timeout=3600, **kw):
+def gen(name, nkeys, seed, max_ops, max_tx, workers=4, simulate=None, timeout=14400, **kw):
     mod, cfg = instantiate("MC_BTree", "GENBT_" + name, _consts(nkeys, seed, max_ops, max_tx, True, **kw),
                            ["SPECIFICATION Spec", "CHECK_DEADLOCK FALSE"] + ([] if simulate else ["VIEW View"]))
     beh, s, t = tlc_gen(mod, cfg, workers=workers, simulate=simulate, timeout=timeout)
